@@ -9,7 +9,7 @@ def run(ctx):
     out = []
     for fs in ctx.featuresets():
         c = ctx.mir(fs)["ts_rs"]
-        res = [E.single_writer_rule(c, "C11", ctx.syn), E.walk_rule(c, "C11"), E.path_agreement_rule(c, "C11")]
+        res = [E.single_writer_rule(c, "C11", ctx.syn), E.walk_rule(c, "C11"), E.path_agreement_rule(c, "C11"), E.type_arg_discipline_rule(c, "C11")]
         for r in res:
             if fs != "default":
                 r.rule += "@" + fs
@@ -18,4 +18,5 @@ def run(ctx):
     out.append(T.export_test_rule(ctx.syn, "C11"))
     out.append(T.deps_emission_rule(ctx.syn, ctx.mir("default")["ts_rs_macros"], "C11", "C11.R6"))
     out.append(T.generics_visit_rule(ctx.syn, "C11", "C11.R7"))
+    out.append(T.impl_assembly_rule(ctx.syn, "C11", "C11.R9"))
     return out
